@@ -813,6 +813,13 @@ func (e *SpecEnv) evalCall(n *SCall) SVal {
 				if pi, isI := fe.X.(*SIdent); isI && e.pkg != nil {
 					for _, imp := range e.pkg.Imports() {
 						if imp.Name() == pi.Name {
+							// several imports can share a declared name (sdk "types" vs the module's own "types"):
+							// take the one that declares the variable
+							if sp := vc.prog.Prog.Package(imp); sp != nil {
+								if _, isG := sp.Members[fe.Name].(*ssa.Global); !isG && ok {
+									continue
+								}
+							}
 							gpkg = imp
 							id, ok = &SIdent{fe.Name}, true
 						}
